@@ -584,10 +584,11 @@ class Assoc(SeqOf):
     """dict[str, V] seen as an association list in insertion order (keys pairwise distinct is a precondition the
     contract must state when it matters). Supports .items(), iteration over keys, len()."""
 
-    def __init__(self, valty):
-        SeqOf.__init__(self, TupleOf(Str, valty))
+    def __init__(self, valty, keyty=None):
+        SeqOf.__init__(self, TupleOf(keyty or Str, valty))
         self.valty = valty
-        self.name = f"Assoc({valty.name})"
+        self.keyty = keyty or Str  # keys other than str (e.g. opaque Path objects) are only compared for equality
+        self.name = f"Assoc({valty.name})" if keyty is None else f"Assoc({keyty.name},{valty.name})"
 
     def wrap(self, term):
         v = VList(self.elem, seq=term)
@@ -751,6 +752,18 @@ class EnumOf(Ty):
 
     def pack(self, v):
         return coerce(v, Str).t
+
+
+class UFCallable(Ty):
+    """A function-valued parameter standing for an uninterpreted function declared with api.uf(name, ...): calling the
+    parameter applies that function (pure, total, same result for the same arguments)."""
+
+    def __init__(self, uf_name):
+        self.uf_name = uf_name
+        self.name = f"UFCallable({uf_name})"
+
+    def fresh(self, base):
+        return VConst(("uf", self.uf_name))
 
 
 class Opaque(Ty):
